@@ -50,6 +50,9 @@ class CoopLock:
         s = _current
         if s is not None:
             s.unblock(self)
+            h = getattr(s, "on_release", None)
+            if h is not None and not getattr(s, "killing", False):
+                h(s.me(), self)
 
     def locked(self):
         return self._real.locked()
@@ -233,6 +236,218 @@ class Scheduler:
             if not self.done_evt.acquire(timeout=real_timeout):
                 raise TimeoutError("scheduler run did not finish")
             for w in self.workers:
+                w.thread.join(5.0)
+        finally:
+            _current = None
+        return self
+
+
+# =====================================================================================================
+# Dynamic threads: code under test that itself creates threads (server lifecycle, C20)
+# =====================================================================================================
+class Killed(BaseException):
+    """raised inside a parked worker when the run is over (the thread unwinds and ends)"""
+
+
+class CoopThread:
+    """threading.Thread look-alike: start() registers a new worker of the active DynScheduler (runnable, scheduled
+    like every other worker), join() blocks cooperatively until that worker has finished"""
+
+    def __init__(self, group=None, target=None, name=None, args=(), kwargs=None, *, daemon=None):
+        self._target, self._args, self._kwargs = target, args, kwargs or {}
+        self.name = name or "coop-thread"
+        self.daemon = bool(daemon)
+        self._worker = None
+        self._started = False
+
+    def run(self):
+        if self._target is not None:
+            self._target(*self._args, **self._kwargs)
+
+    def start(self):
+        if self._started:
+            raise RuntimeError("threads can only be started once")
+        s = _current
+        if not isinstance(s, DynScheduler):
+            raise RuntimeError("CoopThread started outside a DynScheduler run")
+        self._started = True
+        self._worker = s.spawn(self.run, self)
+
+    def is_alive(self):
+        return self._started and self._worker is not None and self._worker.state != "done"
+
+    @property
+    def ident(self):
+        return None if self._worker is None or self._worker.thread is None else self._worker.thread.ident
+
+    def join(self, timeout=None):
+        if not self._started:
+            raise RuntimeError("cannot join thread before it is started")
+        s = _current
+        me = s.me() if s is not None else None
+        while self._worker.state != "done":
+            if me is None:
+                raise RuntimeError("CoopThread joined from outside the scheduler")
+            if self._worker.idx == me:
+                raise RuntimeError("cannot join current thread")
+            s.block(me, self)
+
+
+class coop_threads:
+    """context manager: threading.Thread and threading.Lock are cooperative inside"""
+
+    def __enter__(self):
+        threading.Lock = CoopLock
+        threading.Thread = CoopThread
+        return self
+
+    def __exit__(self, *a):
+        threading.Lock = _RealLock
+        threading.Thread = _RealThread
+
+
+class DynScheduler(Scheduler):
+    """Scheduler whose workers may create further (daemon) workers. The run is over when every non-daemon
+    worker has finished; daemon workers still alive then are parked and, after the observation hook has run,
+    unwound with `Killed`. `yield_now` lets a polling loop (socket timeout) hand the token on."""
+
+    def __init__(self, bodies, traced_files, **kw):
+        super().__init__(bodies, traced_files, **kw)
+        for w in self.workers:
+            w.daemon = False
+            w.thread_obj = None
+        self.killing = False
+        self.livelock = False
+        self.timed_out = False
+        self.on_release = None      # hook(worker idx, lock) after every release of a cooperative lock
+        self.on_worker_end = None   # hook(worker idx)
+        self.on_finish = None       # called on the harness thread when the run is over, before the unwinding
+        self.finish_result = None
+
+    # ---- dynamic workers -------------------------------------------------------------------------
+    def spawn(self, body, thread_obj):
+        w = Worker(len(self.workers), body)
+        w.daemon = bool(thread_obj.daemon)
+        w.thread_obj = thread_obj
+        self.workers.append(w)
+        self.order.append(w.idx)
+        w.thread = _RealThread(target=self._main, args=(w,), daemon=True)
+        w.thread.start()
+        return w
+
+    def _over(self):
+        return all(x.state == "done" for x in self.workers if not x.daemon)
+
+    def _park(self, w):
+        w.go.acquire()
+        if self.killing:
+            raise Killed()
+
+    def _switch_from(self, w, prefer=None):
+        if self.killing:
+            if w is not None and w.state != "done":
+                raise Killed()
+            return
+        if self._over():
+            self.done_evt.release()
+            if w is not None and w.state != "done":
+                self._park(w)
+            return
+        nxt = self._pick_next(after=w, prefer=prefer)
+        if nxt is None:
+            self.deadlock = True       # every unfinished thread is blocked
+            self.done_evt.release()
+            if w is not None and w.state != "done":
+                self._park(w)
+            return
+        if nxt is w:
+            return
+        self.switches += 1
+        nxt.go.release()
+        if w is not None and w.state != "done":
+            self._park(w)
+
+    def yield_now(self):
+        """called by the running worker inside a polling loop: let the next runnable worker run"""
+        idx = self.me()
+        if idx is None or self.killing:
+            return
+        w = self.workers[idx]
+        self.step += 1
+        if self.step > self.max_steps:
+            self.livelock = True
+            self.done_evt.release()
+            self._park(w)
+        self._switch_from(w)
+
+    def yield_point(self, idx, where):
+        if self.killing:
+            return
+        self.step += 1
+        w = self.workers[idx]
+        w.steps += 1
+        if self.step > self.max_steps:
+            self.livelock = True
+            self.done_evt.release()
+            self._park(w)
+        if len(self.trace_points) < 40:
+            self.trace_points.append((self.step, idx, where))
+        target = self.preempt.get(self.step)
+        if target is not None and target != idx and target < len(self.workers) \
+                and self.workers[target].state == "runnable":
+            self._switch_from(w, prefer=target)
+
+    def unblock(self, obj):
+        super().unblock(obj)
+
+    def _main(self, w):
+        self.ident[threading.get_ident()] = w.idx
+        w.go.acquire()
+        if self.killing:
+            w.state = "done"
+            return
+        sys.settrace(self._tracer(w.idx))
+        try:
+            w.result = w.body()
+        except Killed:
+            pass
+        except BaseException as e:   # the body's own exceptions are results
+            w.error = e
+        finally:
+            sys.settrace(None)
+            w.state = "done"
+            if not self.killing:
+                if w.thread_obj is not None:
+                    self.unblock(w.thread_obj)
+                if self.on_worker_end is not None:
+                    try:
+                        self.on_worker_end(w.idx)
+                    except Exception:   # noqa
+                        pass
+                try:
+                    self._switch_from(w)
+                except Killed:
+                    pass
+
+    def run(self, real_timeout=60.0):
+        global _current
+        _current = self
+        try:
+            for w in list(self.workers):
+                w.thread = _RealThread(target=self._main, args=(w,), daemon=True)
+                w.thread.start()
+            first = self._pick_next()
+            if first is None:
+                return self
+            first.go.release()
+            self.timed_out = not self.done_evt.acquire(timeout=real_timeout)
+            if self.on_finish is not None and not self.timed_out:
+                self.finish_result = self.on_finish()
+            self.killing = True
+            for w in list(self.workers):
+                if w.state != "done":
+                    w.go.release()
+            for w in list(self.workers):
                 w.thread.join(5.0)
         finally:
             _current = None
